@@ -282,7 +282,7 @@ pub fn run(ctx: &mut Ctx) {
     for (n, ok) in r9::selftest(false) {
         ctx.selftest(&n, ok);
     }
-    ctx.require(&["annex_kat", "len_sweep", "fixed_r_exact", "free_r", "roundtrip", "ref_made_decrypts", "bitflip_pc_byte", "bitflip_c1", "bitflip_c2", "bitflip_c3", "truncated_inside_c1", "truncated_inside_c3", "truncated_body", "id_changed", "c1_zero_zero", "c1_offcurve_y_plus_1", "c1_offcurve_random", "pc_byte_illegal_valid_tag", "c1_other_point", "c1_coordinate_plus_p_alias", "c3_zeroed", "msg_len=255", "msg_len=1", "id_empty", "encryptor_has_public_key_only", "interleaved_keys_decrypt", "k1_all_zero_retry", "ke=H1(id)_doubling_in_QB", "crafted_valid_c1_decrypts", "long_msg_or_id", "kdf_beyond_255_blocks", "id_beyond_2^16_bits", "many_calls_one_process"]);
+    ctx.require(&["annex_kat", "len_sweep", "fixed_r_exact", "free_r", "roundtrip", "ref_made_decrypts", "bitflip_pc_byte", "bitflip_c1", "bitflip_c2", "bitflip_c3", "truncated_inside_c1", "truncated_inside_c3", "truncated_body", "id_changed", "c1_zero_zero", "c1_offcurve_y_plus_1", "c1_offcurve_random", "pc_byte_illegal_valid_tag", "c1_other_point", "c1_coordinate_plus_p_alias", "c3_zeroed", "msg_len=255", "msg_len=1", "id_empty", "encryptor_has_public_key_only", "interleaved_keys_decrypt", "k1_all_zero_retry", "ke=H1(id)_doubling_in_QB", "crafted_valid_c1_decrypts", "long_msg_or_id", "kdf_beyond_255_blocks", "id_beyond_2^16_bits", "many_calls_one_process", "id_length_sweep"]);
     let pr = r9::params();
     if ctx.shard == 0 {
         let ke = r9::hexn("0001EDEE3778F441F8DEA3D9FA0ACC4E07EE36C93F9A08618AF4AD85CEDE1C22");
@@ -456,6 +456,24 @@ pub fn run(ctx: &mut Ctx) {
         }
     }
     ctx.exhaustive("message lengths 1..=255", true);
+    // --- identity lengths 0..=130 (the inputs of H1 and of the KDF, 452 + |ID| bytes, take every residue modulo the block
+    // size of the hash underneath)
+    {
+        let mut pl = ctx.prng("id_sweep");
+        for len in 0..=130u64 {
+            let sub = pl.next();
+            if !ctx.mine(len) {
+                continue;
+            }
+            let mut p = Prng::new(sub, "ls");
+            let ke = rand_scalar(&mut p, &(&pr.n - 1u32));
+            let r = rand_scalar(&mut p, &(&pr.n - 1u32));
+            let (id, msg) = (p.bytes(len as usize), p.bytes(19));
+            ctx.class("id_length_sweep");
+            enc_case(ctx, &ke, &id, &msg, Some(&r), "id_length_sweep");
+        }
+        ctx.exhaustive("identity lengths 0..=130", true);
+    }
     // --- many calls in one process (call-count dependent faults): 300 decryptions of one valid ciphertext, every 25th one
     // with a flipped C2 bit; 100 encryptions with injected r compared with the reference
     if ctx.shard == 0 {
